@@ -2,7 +2,7 @@
    Model: Syn/Templates.v (syntax/templates.go: Instantiate, resolveInstance, instance.resolve, allocate,
    check, doExpr, doSet, suffix, final sort + Rearrange) and the template semantics [tden] / [eval_pred].
    Lemmas: Syn/Templates_proofs.v. *)
-From Coq Require Import List ZArith Bool.
+From Coq Require Import List ZArith Bool Lia.
 From TM Require Import Syn.Expr Syn.Expand Syn.ExtLang Syn.Expand_global Syn.Templates Syn.Templates_proofs Syn.Templates_global.
 Import ListNotations.
 Local Open Scope Z_scope.
@@ -28,13 +28,13 @@ Local Open Scope Z_scope.
 (* Instantiate as a whole *)
 Theorem C14_instantiate_correct :
   forall setden fuel m,
-    m_params m <> [] -> inst_checks fuel m = true -> 0 <= nterms m ->
+    m_params m <> [] -> inst_checks fuel m = true ->
     let st := snd (inst_loop fuel (nterms m) (m_nonterms m) O (inst_start m) []) in
     forall k cur, nth_error (is_list st) k = Some cur -> forall w,
       tlfp (nterms m) setden (m_nonterms m) (nterms m + i_nt cur) (i_sig cur) w <->
       lfp (nterms m) setden (map val3 (tr_nonterms (instantiate fuel m)))
           (nterms m + Z.of_nat (nth k (inst_perm m (is_list st)) O)) w.
-Proof. exact instantiate_correct. Qed.
+Proof. intros setden fuel m Hp Hc. apply instantiate_correct; [exact Hp | exact Hc | unfold nterms; lia]. Qed.
 
 (* the template language is a solution of the template equations *)
 Theorem C14_template_language_is_a_solution :
